@@ -64,7 +64,7 @@ DimVals(d) ==
       [] d = "maxtok" -> {"ok", "absent", "zero", "neg", "wrongtype"}
       [] d = "temp"   -> {"absent", "mid", "zero", "one", "hi", "neg"}
       [] d = "topp"   -> {"absent", "mid", "zero", "one", "hi", "neg"}
-      [] d = "stop"   -> {"absent", "empty", "one", "two"}
+      [] d = "stop"   -> {"absent", "empty", "one", "two", "seven"}
       [] d = "stream" -> {"absent", "true", "false"}
       [] d = "sys"    -> {"absent", "str", "b1", "b2", "b0"}
       [] d = "tools"  -> {0, 1, 2}
@@ -117,6 +117,7 @@ InvalidCfg(c, msgs) ==
     \/ c.temp \in {"hi", "neg"}
     \/ c.topp \in {"hi", "neg"}
     \/ msgs = <<>>
+    \/ \E m \in 1..Len(msgs) : msgs[m].form \in {"null", "absent"}     \* content is required: a string or a block list
     \/ (c.tools > 0 /\ c.tc = "o_tool_noname")
 
 Unspecified(c, msgs) ==
@@ -202,6 +203,7 @@ ScalarsOK(c, o) ==
     /\ c.topp # "absent" => o.topp = "same"
     /\ CASE c.stop = "one" -> o.stop = <<1>>
          [] c.stop = "two" -> Len(o.stop) = 2 /\ SeqToSet(o.stop) = {1, 2}
+         [] c.stop = "seven" -> Len(o.stop) = 7 /\ SeqToSet(o.stop) = 1..7     \* none dropped, none invented
          [] OTHER          -> o.stop = <<>>
 
 \* tool k is [name n<k>, description present iff k = 1, nested schema]
@@ -297,7 +299,8 @@ RefOut(r, msgs) == [model |-> "same", maxtok |-> "same",
                     stream |-> (IF r.cfg.stream = "true" THEN "true" ELSE "false"),
                     temp |-> (IF r.cfg.temp = "absent" THEN "absent" ELSE "same"),
                     topp |-> (IF r.cfg.topp = "absent" THEN "absent" ELSE "same"),
-                    stop |-> (CASE r.cfg.stop = "one" -> <<1>> [] r.cfg.stop = "two" -> <<1, 2>> [] OTHER -> <<>>),
+                    stop |-> (CASE r.cfg.stop = "one" -> <<1>> [] r.cfg.stop = "two" -> <<1, 2>>
+                                  [] r.cfg.stop = "seven" -> <<1, 2, 3, 4, 5, 6, 7>> [] OTHER -> <<>>),
                     msgs |-> msgs, tools |-> RefTools(r.cfg), tc |-> RefChoice(r.cfg)]
 RefFine(r)   == RefOut(r, FineMsgs(ReqItems(r, {})))
 RefMerged(r) == RefOut(r, Merge(FineMsgs(ReqItems(r, {}))))
